@@ -133,6 +133,32 @@ def check_active(ctx):
     check_flushed_ghost(ctx, ex, paths, env, o4, 'recover/filter-removed-newest-item-replayed')
 
 
+def check_covered_not_replayed(ctx, ex, paths, env, ob, role, confirm):
+    """no ghost involved: a record whose seqno is <= the highest seqno in its keyspace's tables is never applied again"""
+    bad = []
+    for p in paths:
+        if p.status != 'returned' or ctx.sat(p.pc + [ret_is_ok(p)], ob)[0] != z3.sat:
+            continue
+        ob.reach += 1
+        for e in [e for e in p.events if e.kind in TREE_W and e.kind != 'T_CLEAR']:
+            owner = [k for k in env.ks if obj_name(e).rstrip("'") == k['tree'].name]
+            sq = e.args.get('seqno')
+            if not owner or not z3.is_expr(sq):
+                continue
+            hp, pv = owner[0]['tree'].data['persisted']
+            if ctx.sat(p.pc + [hp, z3.ULE(sq, pv)], ob)[0] != z3.unsat:
+                bad.append((p, f'a record of keyspace {owner[0]["inner"].name} whose seqno is <= the highest seqno in that keyspace\'s tables is applied again: what a compaction filter made of that item '
+                               f'(removed, or rewritten under the same seqno) is shadowed by the original after the reopen')); break
+        if bad:
+            break
+    if ob.reach == 0:
+        ob.status = 'undecided'; ob.detail = 'vacuous'
+    elif not bad:
+        ob.status = 'discharged'; ob.sample = {'ok_paths': ob.reach}
+    else:
+        ctx.candidate(ob, role, f'{ob.id}: {bad[0][1]}', confirm=confirm)
+
+
 def check_flushed_ghost(ctx, ex, paths, env, ob, role):
     """ghost state: F_k = the highest seqno of keyspace k that was ever flushed.  Without a compaction filter F_k is the tables' highest
     seqno; a filter may have removed the newest flushed items, so F_k >= persisted_k only.  A record with seqno <= F_k was flushed:
@@ -152,7 +178,7 @@ def check_flushed_ghost(ctx, ex, paths, env, ob, role):
             nm = k['inner'].name
             F = z3.BitVec(f'{nm}.flushed_upto', 64); hasF = z3.Bool(f'{nm}.has_flushed'); filt = z3.Bool(f'{nm}.has_filter')
             ax = [z3.Implies(hp, z3.And(hasF, z3.UGE(F, pv))), z3.Implies(z3.Not(filt), z3.And(hasF == hp, F == pv))]
-            r, m = ctx.sat(p.pc + ax + [hasF, z3.ULE(sq, F)], ob)
+            r, m = ctx.sat(p.pc + ax + [hasF, z3.ULE(sq, F), z3.Or(z3.Not(hp), z3.UGT(sq, pv))], ob)
             if r != z3.unsat:
                 bad.append((p, f'a record of keyspace {nm} that was already flushed (seqno <= flushed-up-to mark, which exceeds the highest seqno left in the tables because the compaction filter '
                                f'removed the newest items) is applied again: the removed item comes back'))
@@ -293,8 +319,17 @@ def selfcompare_programs():
     what every read method answers before the close is what it answers after the reopen"""
     S = {}
     S['filter-replaces-newest'] = ('workers=0 filter=a', ['ks a', 'insert a 6b31 31', 'insert a 7231 58', 'rotate a', 'worker_drain', 'major_compact a'])
-    S['filter-two-keyspaces'] = ('workers=0 filter=a', ['ks a', 'ks b', 'insert a 7831 58', 'insert b 7831 59', 'rotate a', 'worker_drain', 'rotate b', 'worker_drain', 'major_compact a', 'major_compact b', 'insert b 6b31 41'])
+    S['filter-two-keyspaces'] = ('workers=0 filter=a', ['ks a', 'ks b', 'insert a 7831 58', 'insert b 7831 59', 'insert a 6b31 31', 'rotate a', 'worker_drain', 'rotate b', 'worker_drain', 'major_compact a', 'major_compact b', 'insert b 6b31 41'])
     S['filter-drops-older'] = ('workers=0 filter=a', ['ks a', 'insert a 7831 58', 'insert a 6b31 31', 'rotate a', 'worker_drain', 'major_compact a', 'insert a 6b32 32'])
+    return S
+
+
+def sealed_filter_programs():
+    """a sealed journal (kept on disk by another keyspace's unflushed data) holds flushed, filter-rewritten writes AND later unflushed writes of the filtered keyspace"""
+    S = {}
+    S['filter-sealed-flushed-and-unflushed'] = ('workers=0 filter=a', ['rotation_threshold 1000000000', 'ks a', 'ks b', 'insert b 6b31 41', 'insert a 7231 58', 'insert a 6b31 31', 'rotate a', 'worker_drain', 'major_compact a',
+                                                                     'insert a 6b32 32', 'rotation_threshold 0', 'rotate b', 'worker_drain', 'insert a 6b34 34'])
+    S.update(selfcompare_programs())
     return S
 
 
@@ -350,6 +385,9 @@ def native_reopen(ctx):
 def run(ctx):
     check_active(ctx)
     check_sealed(ctx)
+    # what a reopen can replay is what journal maintenance left on disk: the evict rule (decided for C10) is part of this property as well
+    from . import c10
+    c10.check_maintenance(ctx, confirm=lambda: native_reopen(ctx))
     ctx.assumptions += [
         'E8: get_highest_persisted_seqno reports the maximum seqno over the tables of a tree; a table item with seqno s supersedes journal records with seqno <= s',
         'E2: among entries of one key the highest seqno wins (lsm-tree read path); the equality of content after replay follows from the apply rule + E2',
